@@ -35,6 +35,7 @@ type Config struct {
 	PanicOK       bool
 	InitPkgs      []string
 	Field         FieldModel
+	AlgebraCrypto bool // group elements are their discrete logarithms (reals)
 	Summaries     map[string]*ssa.Function // callee name suffix -> harness function standing in for it (proved equivalent by its own harness)
 	summaryNames  map[string]string
 	onLock        func(in *Interp, name string, args []Val)
@@ -165,6 +166,8 @@ func main() {
 			fmt.Sscan(f[1], &cfg.Unwind)
 		case "indexsplit":
 			fmt.Sscan(f[1], &cfg.MaxIndexSplit)
+		case "crypto":
+			cfg.AlgebraCrypto = f[1] == "algebra"
 		case "symindex":
 			fmt.Sscan(f[1], &cfg.MaxSymIndex)
 		case "summarize":
